@@ -10,6 +10,7 @@ import (
 
 	storetypes "github.com/cosmos/cosmos-sdk/store/v2/types"
 	sdk "github.com/cosmos/cosmos-sdk/types"
+	banktypes "github.com/cosmos/cosmos-sdk/x/bank/types"
 	minttypes "github.com/cosmos/cosmos-sdk/x/mint/types"
 
 	ratelimitkeeper "github.com/cosmos/ibc-go/v11/modules/apps/rate-limiting/keeper"
@@ -52,6 +53,15 @@ func mintTo(chain *ibctesting.TestChain, addr sdk.AccAddress, coin sdk.Coin) err
 		return err
 	}
 	return bk.SendCoinsFromModuleToAccount(ctx, minttypes.ModuleName, addr, sdk.NewCoins(coin))
+}
+
+// resync sets the test account's local sequence to the one in state: a transaction rejected before the ante
+// handler (message ValidateBasic) does not consume a sequence number, but ibctesting counts it anyway.
+func resync(chain *ibctesting.TestChain, acc sdk.AccountI) {
+	st := chain.GetSimApp().AccountKeeper.GetAccount(chain.GetContext(), acc.GetAddress())
+	if st != nil {
+		_ = acc.SetSequence(st.GetSequence())
+	}
 }
 
 func balOf(chain *ibctesting.TestChain, addr sdk.AccAddress, denom string) sdkmath.Int {
@@ -141,6 +151,9 @@ func (w *world) leg(o *hx.Out, p *ibctesting.Path, src, dst *ibctesting.TestChai
 	msg := transfertypes.NewMsgTransfer(transfertypes.PortID, srcChan, coin, sender.String(), receiver.String(), clienttypes.NewHeight(1, 1000000), 0, "")
 	r, err := src.SendMsgs(msg)
 	res.sendOK = err == nil
+	if err != nil {
+		resync(src, src.SenderAccount)
+	}
 	if terr == nil {
 		debited := balOf(src, sender, coin.Denom).Sub(bal0).Neg()
 		var bank any
@@ -390,6 +403,54 @@ func (w *world) setDenomRecord(o *hx.Out, d transfertypes.Denom, tag string) {
 	o.Emit("setdenom", tokenJ(d), map[string]any{"new_keys": added, "get_ok": ok}, tag)
 }
 
+// recvSetDenom runs the real OnRecvPacket for a packet that mints a voucher and reports which keys appeared under
+// the DenomKey prefix of the transfer store and whether GetDenom(hash of the voucher's full path) returns it.
+// With preset the receiving chain's bank already holds metadata for the voucher name (set by governance, another
+// module or a bank genesis): the voucher must be recorded all the same (seeded change C34-1).
+func (w *world) recvSetDenom(o *hx.Out, sp, sc, dp, dc, pd string, preset bool, tag string) {
+	data := transfertypes.FungibleTokenPacketData{Denom: pd, Amount: "5", Sender: "sender", Receiver: w.A.SenderAccount.GetAddress().String()}
+	rep, err := transfertypes.PacketDataV1ToV2(data)
+	if err != nil || rep.Token.Denom.HasPrefix(sp, sc) {
+		return // not a minting receive
+	}
+	d := rep.Token.Denom
+	v := transfertypes.Denom{Base: d.Base, Trace: append([]transfertypes.Hop{transfertypes.NewHop(dp, dc)}, d.Trace...)}
+	ctx, _ := w.A.GetContext().CacheContext()
+	if preset {
+		w.A.GetSimApp().BankKeeper.SetDenomMetaData(ctx, banktypes.Metadata{
+			Base: v.IBCDenom(), Display: v.IBCDenom(), Name: "preset", Symbol: "PRESET",
+			DenomUnits: []*banktypes.DenomUnit{{Denom: v.IBCDenom(), Exponent: 0}},
+		})
+	}
+	kk, _ := recKeeper(w.A, transfertypes.GetEscrowAddress(dp, dc))
+	store := ctx.KVStore(w.A.GetSimApp().GetKey(transfertypes.StoreKey))
+	keys := func() map[string]bool {
+		out := map[string]bool{}
+		it := storetypes.KVStorePrefixIterator(store, transfertypes.DenomKey)
+		defer it.Close()
+		for ; it.Valid(); it.Next() {
+			out[hx.H(it.Key())] = true
+		}
+		return out
+	}
+	before := keys()
+	panicked, _ := hx.Catch(func() { err = kk.OnRecvPacket(ctx, rep, sp, sc, dp, dc) })
+	if panicked || err != nil {
+		return // nothing was received (rejected denominations are the subject of other record kinds)
+	}
+	var added []string
+	for key := range keys() {
+		if !before[key] {
+			added = append(added, key)
+		}
+	}
+	sort.Strings(added)
+	got, found := w.A.GetSimApp().TransferKeeper.GetDenom(ctx, v.Hash())
+	ok := found && got.Path() == v.Path() && got.Base == v.Base && len(got.Trace) == len(v.Trace)
+	o.Emit("recv_setdenom", map[string]any{"dp": hx.HS(dp), "dc": hx.HS(dc), "pd": hx.HS(pd), "preset": preset, "base": hx.HS(v.Base), "trace": traceJ(v)},
+		map[string]any{"new_keys": added, "get_ok": ok}, tag)
+}
+
 func genDenom(r *hx.Rng) transfertypes.Denom {
 	var d transfertypes.Denom
 	nh := r.Intn(3)
@@ -438,6 +499,9 @@ func famChain(t *testing.T, r *hx.Rng, o *hx.Out) {
 			dc, tag = r.Str(lower, 4, 6)+"-"+r.Str(lower, 3, 4), "foreign-dst-chan"
 		}
 		w.decisionRecv(o, sp, sc, dp, dc, s, tag)
+		if i%3 == 0 {
+			w.recvSetDenom(o, sp, sc, dp, dc, s, i%2 == 0, tag)
+		}
 	}
 	w.decisionRecv(o, "transfer", "channel-3", "transfer", "channel-1", "transfer/channel-0", "witness-f5c")
 	w.decisionRecv(o, "transfer", "chan-xyz12", "transfer", "channel-1", "transfer/chan-xyz12/uatom", "witness-f5c")
